@@ -47,7 +47,7 @@ func (c *Ctx) RuleScanErr() *Result {
 			f := staticCallee(&call.Call)
 			if isMeth(f, "bufio", "Reader", "ReadLine") {
 				res.Instances++
-				if resultValue(call, 1) == nil {
+				if pv := resultValue(call, 1); pv == nil || len(usesOf(pv)) == 0 {
 					res.bad(load.FnName(fn)+":"+qualName(f), c.P.InstrPos(call), "bufio.Reader.ReadLine returns a line in pieces when it is longer than the reader's buffer (4096 bytes by default) and says so in isPrefix; that result is ignored here, so every piece of a long line is treated as a line of its own")
 				} else {
 					res.undecided(load.FnName(fn)+":"+qualName(f), c.P.InstrPos(call), "line reading through bufio.Reader.ReadLine with isPrefix handling is not modelled")
@@ -278,4 +278,15 @@ func (c *Ctx) errChainFor(fns map[*ssa.Function]bool) []*Result {
 	d := drop.Filter(keep)
 	h := handle.Filter(keep)
 	return []*Result{d, h, c.RuleErrExit()}
+}
+
+// usesOf returns the referrers of v that are not debug references.
+func usesOf(v ssa.Value) []ssa.Instruction {
+	var out []ssa.Instruction
+	for _, r := range referrers(v) {
+		if _, dbg := r.(*ssa.DebugRef); !dbg {
+			out = append(out, r)
+		}
+	}
+	return out
 }
